@@ -35,7 +35,6 @@ NoVersion == 99
 Classes == {"num", "alnum", "kanji", "l1", "x8", "hanzi"}
 \* num: ASCII digits; alnum: the 45 characters, not all digits; kanji: valid double-byte Shift JIS pairs (n bytes, even);
 \* l1: other bytes in ISO-8859-1 (or raw bytes); x8: other bytes in an encoding that needs an ECI header; hanzi: GB2312 pairs
-AutoMode(cls) == CASE cls = "num" -> "numeric" [] cls = "alnum" -> "alphanumeric" [] cls = "kanji" -> "kanji" [] OTHER -> "byte"
 Representable(mode, cls) == CASE mode = "numeric" -> cls = "num" [] mode = "alphanumeric" -> cls \in {"num", "alnum"}
                               [] mode = "byte" -> TRUE [] mode = "kanji" -> cls = "kanji" [] mode = "hanzi" -> cls = "hanzi"
 Chars(mode, n) == IF mode \in {"kanji", "hanzi"} THEN n \div 2 ELSE n
@@ -50,25 +49,6 @@ Admissible(v, a, mode) ==
   /\ (v = -3 => a.error = "-")
   /\ HasLevel(v, LevelFor(v, a))
 Fits(v, a, mode) == Admissible(v, a, mode) /\ CapT(v, LevelFor(v, a)) >= Bits(v, a, mode)
-
-(* ------------------------------------------------------------------ classification of concrete bytes (C07) *)
-IsNumB(b) == Len(b) >= 1 /\ \A i \in 1..Len(b) : b[i] >= 48 /\ b[i] <= 57
-IsAlnumB(b) == Len(b) >= 1 /\ \A i \in 1..Len(b) : b[i] \in AlnumSet
-\* a valid double-byte Shift JIS character inside 8140-9FFC / E040-EBBF: lead 81-9F / E0-EB, trail 40-7E / 80-FC
-KanjiPair(hi, lo) == LET code == hi * 256 + lo IN
-                     /\ ((code >= 33088 /\ code <= 40956) \/ (code >= 57408 /\ code <= 60351))
-                     /\ lo >= 64 /\ lo <= 252 /\ lo # 127
-IsKanjiB(b) == Len(b) >= 2 /\ Len(b) % 2 = 0 /\ \A k \in 1..(Len(b) \div 2) : KanjiPair(b[2*k-1], b[2*k])
-\* GB2312 two-byte characters A1A1-AAFE / B0A1-FAFE with second byte A1-FE (GB/T 18284 Hanzi mode)
-HanziPair(hi, lo) == LET code == hi * 256 + lo IN
-                     /\ ((code >= 41377 /\ code <= 43774) \/ (code >= 45217 /\ code <= 64254))
-                     /\ lo >= 161 /\ lo <= 254
-IsHanziB(b) == Len(b) >= 2 /\ Len(b) % 2 = 0 /\ \A k \in 1..(Len(b) \div 2) : HanziPair(b[2*k-1], b[2*k])
-\* class of the bytes of a part; hanziReq: mode hanzi was requested; nondefault: byte encoding is not ISO-8859-1
-ClassOfBytes(b, hanziReq, nondefault) ==
-  IF hanziReq /\ IsHanziB(b) THEN "hanzi"
-  ELSE IF IsNumB(b) THEN "num" ELSE IF IsAlnumB(b) THEN "alnum" ELSE IF IsKanjiB(b) THEN "kanji"
-  ELSE IF nondefault THEN "x8" ELSE "l1"
 
 (* ------------------------------------------------------------------ state machine *)
 VARIABLES pc,    \* "start" | "normalized" | "prepared" | "sized" | "boosted" | "done"
